@@ -7,6 +7,7 @@ CONSTANTS
   Offs <- OffsDeep
   Rtds = {1, 2, 3, 4, 5}
   DistinctOnly = FALSE
+  Clk0s = {0, 1}
   MaxEv = 8
   FilterAverage = 20
 VIEW View
